@@ -123,6 +123,20 @@ Definition unjoin_scalar (sh x : arr) : res (arr * arr) :=
       | _ => Unspec end
   | _, _, _ => Unspec end.
 
+(** ×c and ÷c with a literal integer c, on integer-valued number arrays where the result is exact:
+    the product must stay below 2^53, the quotient must be whole (defs.rs multiply / divide) *)
+Definition scalar_mul (c : Z) (x : arr) : res arr :=
+  match aty x with
+  | TNum => d <- mapM (fun e => match e with ENum z => znum (z * c) | _ => Unspec end) (adata x) ;; Ok (Arr TNum (ash x) d)
+  | _ => Unspec end.
+Definition scalar_div (c : Z) (x : arr) : res arr :=
+  if Z.eqb c 0 then Unspec else
+  match aty x with
+  | TNum => d <- mapM (fun e => match e with
+                                 | ENum z => if Z.eqb (z mod c) 0 then Ok (ENum (z / c)) else Unspec
+                                 | _ => Unspec end) (adata x) ;; Ok (Arr TNum (ash x) d)
+  | _ => Unspec end.
+
 (** UnJoin (°⊂) on a list: its first element and the rest *)
 Definition unjoin1 (x : arr) : res (arr * arr) :=
   match ash x, adata x with
@@ -149,6 +163,8 @@ Definition prim_sem (p : pname) (stk : list arr) : res (list arr) :=
   | P_UnCouple, x :: r => p <- uncouple x ;; ck2 (fst p) (snd p) r
   | P_Add, a :: b :: r => v <- p_perv2 PAdd None a b ;; ck v r
   | P_Sub, a :: b :: r => v <- p_perv2 PSub None a b ;; ck v r
+  | P_Mul, a :: b :: r => match ash a, adata a with [], [ENum c] => v <- scalar_mul c b ;; ck v r | _, _ => Unspec end
+  | P_Div, a :: b :: r => match ash a, adata a with [], [ENum c] => v <- scalar_div c b ;; ck v r | _, _ => Unspec end
   | P_Rotate, a :: b :: r => match ash a, adata a with [], [ENum c] => v <- rot_by c b ;; ck v r | _, _ => Unspec end
   | P_AntiRotate, a :: b :: r => match ash a, adata a with [], [ENum c] => v <- rot_by (- c) b ;; ck v r | _, _ => Unspec end
   | P_Shape, x :: r => ck (p_shape x) r
@@ -175,6 +191,7 @@ Fixpoint tstep (n : tn) (s : st) {struct n} : res st :=
   | TP p => stk <- prim_sem p (fst s) ;; Ok (stk, snd s)
   | TRun l => trun l s
   | TDip f => match fst s with [] => Err | x :: r => s' <- trun f (r, snd s) ;; Ok (x :: fst s', snd s') end
+  | TDipN k f => p <- split_at k (fst s) ;; s' <- trun f (snd p, snd s) ;; Ok (fst p ++ fst s', snd s')
   | TBoth a o f =>
       (* run_prim.rs Both: f on the lower arguments first, then on the upper ones *)
       p <- split_at a (fst s) ;; q <- split_at a (snd p) ;;
@@ -220,6 +237,9 @@ Definition lit_inv (c : Z) (p : pname) : option (list tn) :=
   match p with
   | P_Add => Some [TPush c; TP P_Sub] | P_Sub => Some [TPush c; TP P_Add]
   | P_Rotate => Some [TPush c; TP P_AntiRotate] | P_AntiRotate => Some [TPush c; TP P_Rotate]
+  (* ANTI_PATTERNS ((IgnoreMany(Flip), Mul), Div) and (Div, Mul), un.rs:266-267 *)
+  | P_Mul => if Z.eqb c 0 then None else Some [TPush c; TP P_Div]
+  | P_Div => if Z.eqb c 0 then None else Some [TPush c; TP P_Mul]
   | _ => None end.
 
 Definition obind {A B} (o : option A) (f : A -> option B) : option B := match o with Some x => f x | None => None end.
@@ -247,6 +267,10 @@ Fixpoint mono1 (l : list tn) : bool :=
       | _ => false end
   | _ => false end.
 
+(** `c : -` (the flipped subtraction `˜-c`, ANTI_PATTERNS ((Flip, Sub), (Flip, Sub)), un.rs:265): its own inverse *)
+Definition rsub_tail (l : list tn) : option (list tn) :=
+  match l with TP P_Flip :: TP P_Sub :: r => Some r | _ => None end.
+
 (** [cinv fixed fuel f]: the inverse the engine emits for the sequence f (reversal of the pieces).
     [fixed = false] is the engine BEFORE commit 8f54207: JoinPat's invert_inner put the inverse of a
     dipped function that precedes a join after the un-join WITHOUT the dip (un.rs:877-905 at b634517);
@@ -259,8 +283,14 @@ Fixpoint cinv (fixed : bool) (fuel : nat) (f : list tn) : option (list tn) :=
   match fuel with O => None | S fuel =>
   match f with
   | [] => Some []
-  | TPush c :: TP p :: rest =>
-      obind (lit_inv c p) (fun i => obind (cinv fixed fuel rest) (fun r => Some (r ++ i)))
+  | TPush c :: rest0 =>
+      match rsub_tail rest0 with
+      | Some rest => obind (cinv fixed fuel rest) (fun r => Some (r ++ [TPush c; TP P_Flip; TP P_Sub]))
+      | None =>
+          match rest0 with
+          | TP p :: rest => obind (lit_inv c p) (fun i => obind (cinv fixed fuel rest) (fun r => Some (r ++ i)))
+          | _ => None end
+      end
   | TP p :: rest =>
       obind (prim_inv p) (fun i => obind (cinv fixed fuel rest) (fun r => Some (r ++ i)))
   | TDip g :: rest =>
@@ -272,6 +302,9 @@ Fixpoint cinv (fixed : bool) (fuel : nat) (f : list tn) : option (list tn) :=
             else obind (cinv fixed fuel g) (fun gi => obind (cinv fixed fuel rest') (fun r => Some (r ++ TP P_UnJoin :: gi)))
           else generic
       | [] => generic end
+  | TDipN k g :: rest =>
+      (* DipNPat, un.rs:447 *)
+      obind (cinv fixed fuel g) (fun gi => obind (cinv fixed fuel rest) (fun r => Some (r ++ [TDipN k gi])))
   | TBoth a o g :: rest =>
       obind (cinv fixed fuel g) (fun gi => obind (cinv fixed fuel rest) (fun r => Some (r ++ [TUnBoth o a gi])))
   | TUnBoth a o g :: rest =>
